@@ -21,7 +21,7 @@ func checkC12(c *Ctx) {
 	c.rule("C12.c", "response → command-type routing table", 18)
 	c.rule("C12.d", "removal from the pending list paired with exactly one completion; unique tags", 8)
 	c.rule("C12.e", "a refused command changes no other state", 2)
-	c.rule("C12.f", "keyed response matchers accept a command only on a positive relation to the response", 4)
+	c.rule("C12.f", "keyed response matchers accept a command only on a positive relation to the response", 9)
 	c.rule("C12.g", "guards of the mailbox-summary mirror hold for every conformant response", 4)
 	c.rule("C12.h", "command identity is tested on one representation per command", 1)
 	c.rule("C12.L", "layering lemma", 1)
